@@ -2,6 +2,7 @@ import PytezosModel.Proofs.InterpGood
 /-! Ordered insertion / deletion keep a set / map of the interpreter model well-formed (`goodSet` / `goodMap`): C14's
 lemmas about strictly sorted lists, transported along the embedding of the keys of one simple comparable type. -/
 namespace Interp
+variable [Mode]
 open Typing List
 
 section
